@@ -623,6 +623,16 @@ def cli_roundtrip(chk, tuc_binary, n, want=None):
             continue
         trip.append((argv, inp, c))
     res = run_cli(tuc_binary, [(a, i) for a, i, _ in trip])
+    # the OPTIMIZED build is what users install: the same command lines through the release binary (no overflow checks, no debug
+    # assertions, panic = abort) must give what the debug binary gives
+    from common import build_tuc
+    other = build_tuc(release="/release/" not in tuc_binary)
+    res2 = run_cli(other, [(a, i) for a, i, _ in trip])
+    for (argv, inp, c), x, y in zip(trip, res, res2):
+        chk.count("cli-roundtrip:two-builds")
+        if x != y:
+            chk.report_oracle("the release build and the debug build of the same source give different results for the same command line and input",
+                              {"argv": argv, "stdin_hex": inp.hex(), os.path.basename(os.path.dirname(tuc_binary)) + "_build": [x[0], x[1].hex()], os.path.basename(os.path.dirname(other)) + "_build": [y[0], y[1].hex()]})
     lines = [case_line(c) for _, _, c in trip]
     model = run_model(lines)
     for (argv, inp, c), (st, out), l, (m, _s) in zip(trip, res, lines, model):
